@@ -96,8 +96,6 @@ class C01(ProgramProperty):
         return {'C01-F1', 'C01-F2', 'C01-F3', 'C01-F4', 'C01-F22', 'C01-F23', 'C01-F24'}
 
     def explicit_cases(self, ctx):
-        for p in sorted(glob.glob(os.path.join(VERIF, 'regress', 'C01', '*.json'))):
-            yield json.load(open(p))
         if ctx.tier == 'thorough':
             for path in stdlib_files():
                 try:
